@@ -894,6 +894,35 @@ def main(run):
                                 slots=case["ks"], partitions=[len(r[0]) for r in case["runs"]]))
         for kernel, _ in kernels.values():
             kernel.release()
+    # ---- the value does not depend on how the mesh is split across kernel invocations - nor on how many q values are
+    # computed together: meshes of exactly 100, 200 and 300 points (whole multiples of the driver's slice) with a q vector
+    # of 1000 points against the same parameters evaluated at a few of those q values
+    stats["long_q_vectors"] = 0
+    q_long = np.linspace(0.002, 0.4, 1000)
+    pick = [0, 1, 137, 500, 998, 999]
+    for lname, meshes in (("cylinder", [(10, 10), (20, 10), (20, 15)]), ("core_shell_sphere", [(10, 10), (25, 4)])):
+        if lname not in names:
+            continue
+        lmodel = sas.load(lname)
+        linfo = lmodel.info
+        two = [p_.name for p_ in linfo.parameters.call_parameters if p_.type == "volume" and p_.polydisperse][:2]
+        for n1, n2 in (meshes if thorough else meshes[:2]):
+            lp = base_pars(linfo, rng)
+            lp.update({two[0] + "_pd": 0.2, two[0] + "_pd_n": n1, two[0] + "_pd_type": "rectangle", two[1] + "_pd": 0.15, two[1] + "_pd_n": n2, two[1] + "_pd_type": "rectangle"})
+            lp.update(scale=rng.uniform(0.3, 2), background=rng.uniform(0, 0.1))
+            kl, ks = lmodel.make_kernel([q_long]), lmodel.make_kernel([q_long[pick]])
+            try:
+                from sasmodels.direct_model import call_kernel as _ck
+                a_ = np.asarray(_ck(kl, dict(lp), cutoff=0.0), "d")[pick]
+                b_ = np.asarray(_ck(ks, dict(lp), cutoff=0.0), "d")
+            finally:
+                kl.release(); ks.release()
+            evals += 2; stats["long_q_vectors"] += 1
+            if not np.allclose(a_, b_, rtol=1e-13, atol=0):
+                run.add(Finding("C01:q-vector-length:%s" % lname, "%s with a %d x %d mesh: I(q) computed together with 999 other q values is %s, computed with 5 others %s (max relative difference %.3g)" % (
+                    lname, n1, n2, a_[:3].tolist(), b_[:3].tolist(), float(np.max(np.abs(a_ / b_ - 1)))), dict(model=lname, pars=lp, mesh=[n1, n2], q=q_long[pick].tolist())))
+            else:
+                distinct.add(("long-q", lname, n1, n2))
     # ---- tabulated (array) distributions through the SasView-style object: the table IS the mesh - every entry is a
     # point of the sum, a one-entry table is evaluated at its entry (not at the nominal value), whatever the
     # distribution object's (unused) width field says
